@@ -6,7 +6,8 @@
      out         one produced document: its bytes and the library's reading of it
      chk_out     the reference reader PdfFile (silent steps) and the library both find, at every position, the page
                  PageOps prescribes: which source page it is (by what its content shows), that page's MediaBox
-                 (origin included), CropBox, font key, and rotation = original + requested, modulo 360
+                 (origin included), CropBox, font key, rotation = original + requested modulo 360, and the images it
+                 draws: samples and soft-mask samples of every Do, through the page's own resources
      merged      the parts of a split merged back: the original sequence
      chk_op      outcome and number of documents are what PageOps prescribes (an invalid request is refused)     *)
 EXTENDS PdfFile, PageOps, ContentOps
@@ -26,6 +27,16 @@ TScan == /\ l <= NRec /\ Rec[l].ev \in {"chk_out", "chk_merged"} /\ phase \notin
 K_MediaBox == <<77, 101, 100, 105, 97, 66, 111, 120>>     K_CropBox == <<67, 114, 111, 112, 66, 111, 120>>
 K_Rotate == <<82, 111, 116, 97, 116, 101>>                 K_Resources == <<82, 101, 115, 111, 117, 114, 99, 101, 115>>
 K_Font == <<70, 111, 110, 116>>
+K_XObject == <<88, 79, 98, 106, 101, 99, 116>>             K_SMask == <<83, 77, 97, 115, 107>>
+\* the images the content of output page x draws (every Do, in order): decoded samples of the image the name resolves to
+\* in the page's resources, and of that image's soft mask
+DrawsOf(x, p) == LET g == GroupOps(ContentOf(x).items)
+                     xo == Deref(Get(Deref(p.inh[K_Resources]), K_XObject))
+                     dos == IF g.ok THEN SelectSeq(g.ops, LAMBDA o : o.op = "Do") ELSE <<>>
+                 IN [k \in 1..Len(dos) |-> LET im == Get(xo, dos[k].args[1].b) IN
+                                           [data |-> StreamPayload(im), mask |-> StreamPayload(Get(Deref(im), K_SMask))]]
+DrawsOK(x, p, i) == LET got == DrawsOf(x, p) want == SrcDraws(i) IN
+                    Len(got) = Len(want) /\ \A k \in 1..Len(want) : got[k].data.ok /\ got[k].data.out = want[k].data /\ got[k].mask.ok /\ got[k].mask.out = want[k].mask
 Micro(v) == IF IsNum(v) /\ ~NumParts(v).big THEN NumParts(v).micro ELSE 0 - 999
 BoxMicro(v) == IF v.t = "arr" /\ Len(v.v) = 4 THEN [x \in 1..4 |-> Micro(Deref(v.v[x]))] ELSE <<>>
 Mil(b) == [x \in 1..Len(b) |-> b[x] * 1000000]
@@ -50,6 +61,7 @@ RefDocOK(d) ==
                                 ELSE BoxMicro(Deref(p.inh[K_CropBox])) = Mil(SrcCrop(i)))
        /\ RotOf(Deref(p.inh[K_Rotate])) = d[x].rot
        /\ FontKeyOf(i) \in FontKeys(p.inh[K_Resources])
+       /\ DrawsOK(x, p, i)
 LibDocOK(L, d) ==
   /\ L.open /\ Len(L.pages) = Len(d)
   /\ \A x \in 1..Len(d) :
